@@ -469,8 +469,10 @@ PROPS = {
         "modules": ["Stun.Properties.C17", "Stun.Proofs.URIRoundTrip", "Stun.Properties.C17RoundTrip"],
         "theorems": ["Stun.C17.accepted_wellformed", "Stun.C17.accepted_wellformed_aux", "Stun.C17.parseProto_spec",
                      "Stun.C17.dial_plan_table", "Stun.C17.secure_never_plain", "Stun.C17.roundtrip_fails_on_slash_host",
-                     "Stun.C17.roundtrip_regname", "Stun.C17.atoi_itoa", "Stun.C17.splitHostPort_join",
-                     "Stun.C17.urlParse_rootless", "Stun.C17.parseProto_transport"],
+                     "Stun.C17.roundtrip_accepted", "Stun.C17.roundtrip", "Stun.C17.roundtrip_regname",
+                     "Stun.C17.roundtrip_idempotent", "Stun.C17.accepted_host_chars", "Stun.C17.atoi_itoa",
+                     "Stun.C17.splitHostPort_join", "Stun.C17.splitHostPort_join_bracket", "Stun.C17.splitHostPort_host",
+                     "Stun.C17.urlParse_rootless", "Stun.C17.urlParse_opq_chars", "Stun.C17.parseProto_transport"],
         "streams": ["uri-grammar", "uri-exh", "uri-dial"],
         "level": "proof",
         "rule": "grammar-generated URIs (4 schemes x reg-name / IPv4 / bracketed IPv6 / zone hosts x absent / boundary / "
@@ -479,13 +481,14 @@ PROPS = {
                 "well-formed and round-trip through String(); DialURI with an injected recording network for all 5x3 "
                 "scheme/transport values x IPv4 / IPv6 / name hosts (first bytes written: STUN header vs TLS/DTLS "
                 "ClientHello)",
-        "explanation": "string round trip: proved for every URI whose host is a non-empty registered name / IPv4 literal "
-                       "(letters, digits, '.', '-', '_'), every port 0..65535, all four schemes and both transports "
-                       "(roundtrip_regname, from atoi_itoa, splitHostPort_join, urlParse_rootless, "
-                       "parseProto_transport); the full statement is false for bracketed hosts without ':' that "
-                       "begin with '/' (known finding F8, refuted on a concrete URI in Lean and reported as "
-                       "KNOWN-FINDING by the predicate); for the remaining host classes (bracketed IPv6, zones, "
-                       "percent-escapes) it is decided by the correspondence and the predicate only",
+        "explanation": "string round trip: roundtrip_accepted proves parseURI(String(u)) = u for EVERY u that parseURI "
+                       "returns for any input string, except hosts of the F8 shape (no ':' and a leading '/'), for "
+                       "which the statement is false (known finding F8, refuted on a concrete URI in Lean and reported "
+                       "as KNOWN-FINDING by the predicate). Lemmas: atoi_itoa, splitHostPort_join(_bracket), "
+                       "urlParse_rootless, parseProto_transport (format then parse), urlParse_opq_chars, "
+                       "splitHostPort_host, accepted_host_chars (what an accepted host can contain). The theorem is "
+                       "about the model of net/url, net and strconv; the correspondence ties that model to the "
+                       "implementation function by function",
     },
     "C10": {
         "modules": ["Stun.Properties.C10", "Stun.Properties.C10L2", "Stun.Proofs.ClientSync"],
